@@ -36,12 +36,18 @@ pub enum IndexKind {
     /// the crate's own IdentifyDistinct lookups built over the ranges
     Distinct,
     /// lookups into a virtual sequence whose indices start above 2^32 (the
-    /// ranges handed to the crate are shifted by `FAR_OLD` / `FAR_NEW`)
+    /// ranges handed to the crate are shifted by one of the `FAR_BASES` pairs, some in the upper half of usize)
     Far,
 }
 
-pub const FAR_OLD: usize = (1 << 40) + 3;
-pub const FAR_NEW: usize = (1 << 41) + 11;
+/// (old base, new base) pairs of the virtual index spaces: above 2^32, in the
+/// upper half of usize, next to usize::MAX, and straddling 2^63.
+pub const FAR_BASES: [(usize, usize); 4] = [
+    ((1 << 40) + 3, (1 << 41) + 11),
+    ((1 << 63) + 5, (1 << 62) + 9),
+    (usize::MAX - (1 << 24), (1 << 63) - 7),
+    ((1 << 32) + 1, usize::MAX - (1 << 25)),
+];
 
 #[derive(Clone, Debug, Serialize, Deserialize, PartialEq)]
 pub struct SeqCase {
@@ -75,17 +81,24 @@ impl SeqCase {
     pub fn new_core(&self) -> &[u32] {
         &self.new[self.new_range.0..self.new_range.0 + self.m()]
     }
+    /// Bases of the virtual index spaces of `Far` lookups (a function of the
+    /// case, so that replay files stay self-contained).
+    pub fn far_bases(&self) -> (usize, usize) {
+        FAR_BASES[(self.hasher.1 % FAR_BASES.len() as u64) as usize]
+    }
     /// The ranges as they are handed to the crate (shifted for `Far` lookups).
     pub fn or_abs(&self) -> std::ops::Range<usize> {
         if self.index == IndexKind::Far {
-            FAR_OLD + self.old_range.0..FAR_OLD + self.old_range.1
+            let b = self.far_bases().0;
+            b + self.old_range.0..b + self.old_range.1
         } else {
             self.or()
         }
     }
     pub fn nr_abs(&self) -> std::ops::Range<usize> {
         if self.index == IndexKind::Far {
-            FAR_NEW + self.new_range.0..FAR_NEW + self.new_range.1
+            let b = self.far_bases().1;
+            b + self.new_range.0..b + self.new_range.1
         } else {
             self.nr()
         }
@@ -93,7 +106,7 @@ impl SeqCase {
     /// (old shift, new shift) to subtract from reported indices.
     pub fn shifts(&self) -> (usize, usize) {
         if self.index == IndexKind::Far {
-            (FAR_OLD, FAR_NEW)
+            self.far_bases()
         } else {
             (0, 0)
         }
@@ -496,11 +509,11 @@ macro_rules! with_lookups {
             $crate::gen::IndexKind::Far => {
                 let fo = $crate::simenv::Far {
                     data: &$oldv[..],
-                    base: $crate::gen::FAR_OLD,
+                    base: case.far_bases().0,
                 };
                 let fnew = $crate::simenv::Far {
                     data: &$newv[..],
-                    base: $crate::gen::FAR_NEW,
+                    base: case.far_bases().1,
                 };
                 let $old = &fo;
                 let $new = &fnew;
